@@ -255,7 +255,7 @@ def check(pid, tier, seed, args):
         with open(path, 'w') as f:
             json.dump(record, f, indent=1, default=str)
         reproduced = bool(nat and nat.get('reproduced'))
-        scaffolding = name.startswith('loop-init/') or name.startswith('loop-preserve/') or '[weak model' in (cl.get('detail') or '')
+        scaffolding = name.startswith('loop-init/') or name.startswith('loop-preserve/') or name.startswith('frame/') or '[weak model' in (cl.get('detail') or '')
         if reproduced or not scaffolding:
             violations.append((full, path, reproduced))
         else:
@@ -366,6 +366,10 @@ def check(pid, tier, seed, args):
         "partial correctness: termination of while loops is not proved",
         "external library calls behave as their assumed contract in pyvc/lib*.py (listed in coverage.trusted_base)",
         "extraction drops docstrings, comments, print(...) and logging.*(...) calls: " + (", ".join(sorted(dropped)) or "none met"),
+        "per contract, coverage.contracts[*].requires lists its preconditions (assumed inside the contract; discharged only where a caller's "
+        "contract carries the matching pre(...) obligation) and coverage.contracts[*].assumed lists every fact the contract file assumes "
+        "directly: callee contracts used modularly (each proved by the contract named there), facts about dependencies, arithmetic facts "
+        "(%d preconditions, %d assumed facts in this run)" % (sum(len(r.get('requires', [])) for r in results), sum(len(r.get('assumed', [])) for r in results)),
     ]
     cov = {
         'obligations': n_obl, 'discharged': n_proved, 'path_instances': n_inst,
@@ -375,7 +379,8 @@ def check(pid, tier, seed, args):
         'solver_time_s': round(solver_time, 3),
         'functions_under_contract': functions,
         'contracts': [{'id': r['cid'], 'paths': r['paths'], 'loop_cut_paths': r['cut_paths'], 'clauses': len(r['clauses']),
-                       'undecided': r['undecided'], 'wall_s': round(r['wall'], 2), 'retried_with_larger_budget': bool(r.get('retried_with_larger_budget'))} for r in results],
+                       'undecided': r['undecided'], 'wall_s': round(r['wall'], 2), 'retried_with_larger_budget': bool(r.get('retried_with_larger_budget')),
+                       'requires': r.get('requires', []), 'assumed': r.get('assumed', [])} for r in results],
         'samples': samples[:12] or [{'note': 'no obligations generated'}],
         'refuted': [v[0] for v in violations], 'known_findings_matched': [k[0] for k in known_hit],
         'unknown': ["%s::%s" % (c, n) for c, n, _ in unknown], 'undecided': ["%s: %s" % u for u in undecided],
